@@ -94,4 +94,46 @@ def sendsOfLog (L : Layout) : State → Bool → List Item → Nat
   | s, _, Item.tab tev :: is =>
     (if (releaseAll L s).2.isEmpty then 0 else 1) + sendsOfLog L (releaseAll L s).1 tev.mode is
 
+/-! ### Two devices at once: which outputs are possible
+
+When chunks become readable on BOTH descriptors before the loop has drained either, the order in which
+the loop reads across the two devices is not determined (two queues; `poll` may report the devices in
+either order; the loop drains one device at a time).  The read log is SOME interleaving of the two
+per-device logs (`C10_closed`).  `acceptsAny` decides whether the bytes `out` are `wireOfLog` of some
+interleaving of the keyboard events `ks` and the tablet-switch events `ts` (depth-first, with the output
+bytes as the guide: a branch is followed only while what it would write is a prefix of what was written). -/
+
+/-- `out` with the prefix `w` removed, if `w` is a prefix of it -/
+def stripWire (w out : List Nat) : Option (List Nat) :=
+  if w.isPrefixOf out then some (out.drop w.length) else none
+
+def acceptsAny (L : Layout) (s : State) (b : Bool) (ks : List Event) (ts : List TabletEv) (out : List Nat) : Bool :=
+  match ks, ts with
+  | [], [] => out.isEmpty
+  | k :: ks', [] =>
+    if b then acceptsAny L s b ks' [] out
+    else match stripWire (wireBatch (step L s k).2.events) out with
+      | some rest => acceptsAny L (step L s k).1 b ks' [] rest
+      | none => false
+  | [], t :: ts' =>
+    (match stripWire (wireBatch (releaseAll L s).2) out with
+      | some rest => acceptsAny L (releaseAll L s).1 t.mode [] ts' rest
+      | none => false)
+  | k :: ks', t :: ts' =>
+    (if b then acceptsAny L s b ks' (t :: ts') out
+     else match stripWire (wireBatch (step L s k).2.events) out with
+      | some rest => acceptsAny L (step L s k).1 b ks' (t :: ts') rest
+      | none => false)
+    ||
+    (match stripWire (wireBatch (releaseAll L s).2) out with
+      | some rest => acceptsAny L (releaseAll L s).1 t.mode (k :: ks') ts' rest
+      | none => false)
+termination_by ks.length + ts.length
+decreasing_by all_goals (simp only [List.length_cons]; omega)
+
+/-- wire level, two devices at once: is `out` a possible output for the keyboard bytes `kb` and the
+tablet-switch bytes `tb`, read in some interleaved order by a fresh loop? -/
+def wireAccepts (L : Layout) (kb tb out : List Nat) : Bool :=
+  acceptsAny L State.init false (decodeStream kb) (decodeTabletStream tb) out
+
 end TmVerif
